@@ -1,28 +1,16 @@
 import BufModel.Faults
 import BufGen.AstFacts
 import BufProofs.Lemmas.BucketLemmas
+import BufProofs.Lemmas.FaultLemmas
 /-
   C15 — Write failures are always reported; atomic puts are all-or-nothing.
 -/
 namespace BufProofs.C15
 open BufModel.Path BufModel.Bucket BufModel.Faults
-
 /-- The regenerated source facts: in the current tree every deferred Close of the storage
     helpers is joined into the named return value.  (If someone changes one of them to join a
     stale variable, this `decide` fails and the proof leg breaks.) -/
 theorem facts_hold : BufGen.AstFacts.facts = Facts.allTrue := by decide
-
-theorem writeChunks_none (s : Sched) (path : Str) (i : Nat) (cs : List Content)
-    (h : (writeChunks s path i cs).2 = none) : (writeChunks s path i cs).1 = cs := by
-  induction cs generalizing i with
-  | nil => simp [writeChunks]
-  | cons c rest ih =>
-    unfold writeChunks at h ⊢
-    split
-    · rename_i hf; simp [hf] at h
-    · rename_i hf
-      simp only [hf] at h
-      simp only [ih (i + 1) h]
 
 /-- no_silent_failure, one object (PutPath, CopyReader, CopyReadObject, ForWriteObject — all
     have the shape Put; defer Close-join; write): for EVERY fault schedule, if the helper
@@ -66,23 +54,6 @@ theorem fault_implies_error_close (s : Sched) (d : Dest) (path : Str) (chunks : 
     | error e => simp
     | ok p => simp [h]
 
-theorem writeChunks_fault (s : Sched) (path : Str) (i0 : Nat) (cs : List Content) (k : Nat)
-    (hk : k < cs.length) (h : s.has ⟨path, .write, i0 + k⟩ = true) :
-    (writeChunks s path i0 cs).2.isSome = true := by
-  induction cs generalizing i0 k with
-  | nil => simp at hk
-  | cons c rest ih =>
-    unfold writeChunks
-    split
-    · simp
-    · cases k with
-      | zero => rename_i hf; simp at h; exact absurd h hf
-      | succ k' =>
-        simp only
-        have : i0 + (k' + 1) = (i0 + 1) + k' := by omega
-        rw [this] at h
-        exact ih (i0 + 1) k' (by simp at hk; omega) h
-
 theorem fault_implies_error_write (s : Sched) (d : Dest) (path : Str) (chunks : List Content) (k : Nat)
     (hk : k < chunks.length) (h : s.has ⟨path, .write, k⟩ = true) :
     (writeObj true s d path chunks).1 = true := by
@@ -94,28 +65,6 @@ theorem fault_implies_error_write (s : Sched) (d : Dest) (path : Str) (chunks : 
     | ok p =>
       have := writeChunks_fault s path 0 chunks k hk (by simpa using h)
       simp [this]
-
-/-- The error verdict of one copy job does not depend on the destination state … -/
-theorem copyPath_err_indep (fx : Facts) (s : Sched) (d₁ d₂ : Dest) (path : Str) (chunks : List Content) :
-    (copyPath fx s d₁ path chunks).1 = (copyPath fx s d₂ path chunks).1 := by
-  unfold copyPath writeObj
-  split
-  · rfl
-  · cases hv : validatePath path <;> rfl
-
-def jobErr (fx : Facts) (s : Sched) (j : Str × List Content) : Bool :=
-  (copyPath fx s ⟨[], []⟩ j.1 j.2).1
-
-/-- … so parallel_collects_all: storage.Copy fails iff some job failed … -/
-theorem copyAll_err_iff_any (fx : Facts) (s : Sched) (d : Dest) (jobs : List (Str × List Content)) :
-    (copyAll fx s d jobs).1 = jobs.any (jobErr fx s) := by
-  induction jobs generalizing d with
-  | nil => simp [copyAll]
-  | cons j rest ih =>
-    obtain ⟨p, cs⟩ := j
-    simp only [copyAll, List.any_cons, ih]
-    congr 1
-    exact copyPath_err_indep fx s d ⟨[], []⟩ p cs
 
 /-- … whatever order the scheduler ran the jobs in (every permutation). -/
 theorem copyAll_verdict_schedule_independent (fx : Facts) (s : Sched) (d₁ d₂ : Dest)
@@ -217,36 +166,6 @@ theorem flush_reports_any_failure (fails : List Bool) :
 
 /-! ### Atomic put -/
 
-/-- the write phase without faults -/
-def wfold (d : ADir) (cs : List Content) : ADir := cs.foldl (fun d c => aStep d (.write c)) d
-
-theorem wfold_nil (d : ADir) : wfold d [] = d := rfl
-theorem wfold_cons (d : ADir) (c : Content) (cs : List Content) :
-    wfold d (c :: cs) = wfold (aStep d (.write c)) cs := rfl
-
-theorem wfold_final (d : ADir) (cs : List Content) : (wfold d cs).final = d.final := by
-  induction cs generalizing d with
-  | nil => rfl
-  | cons c rest ih => rw [wfold_cons, ih]; rfl
-
-theorem wfold_temp (fin : Option Content) (t : Content) (cs : List Content) :
-    (wfold { final := fin, temp := some t } cs).temp = some (t ++ joinContent cs) := by
-  induction cs generalizing t with
-  | nil => simp [wfold_nil, joinContent]
-  | cons c rest ih =>
-    rw [wfold_cons]
-    have : aStep { final := fin, temp := some t } (.write c) = { final := fin, temp := some (t ++ c) } := rfl
-    rw [this, ih]; simp [joinContent, String.append_assoc]
-
-theorem atomicWrites_noFail (d : ADir) (i : Nat) (bad : Bool) (chunks : List Content) :
-    atomicWrites none d i bad chunks = (wfold d chunks, bad) := by
-  induction chunks generalizing d i with
-  | nil => simp [atomicWrites, wfold_nil]
-  | cons c rest ih =>
-    unfold atomicWrites
-    simp only [reduceCtorEq, if_false]
-    rw [ih, wfold_cons]
-
 /-- A fault-free atomic put ends with the complete new content and no temp file. -/
 theorem atomic_success (old : Option Content) (chunks : List Content) :
     atomicRun old chunks none = (false, { final := some (joinContent chunks), temp := none }) := by
@@ -257,34 +176,6 @@ theorem atomic_success (old : Option Content) (chunks : List Content) :
   have h2 := wfold_temp old "" chunks
   simp only [aStep, h2]
   simp
-
-theorem atomicWrites_final (failAt : Option Nat) (d : ADir) (i : Nat) (bad : Bool) (chunks : List Content) :
-    (atomicWrites failAt d i bad chunks).1.final = d.final := by
-  induction chunks generalizing d i bad with
-  | nil => simp [atomicWrites]
-  | cons c rest ih =>
-    unfold atomicWrites
-    split
-    · exact ih d (i + 1) true
-    · rw [ih]; rfl
-
-theorem atomicWrites_bad_stays (failAt : Option Nat) (d : ADir) (i : Nat) (cs : List Content) :
-    (atomicWrites failAt d i true cs).2 = true := by
-  induction cs generalizing d i with
-  | nil => simp [atomicWrites]
-  | cons c rest ih => unfold atomicWrites; split <;> exact ih _ _
-
-theorem atomicWrites_hits (k : Nat) (cs : List Content) (d : ADir) (i : Nat) (bad : Bool)
-    (h1 : i ≤ k) (h2 : k < i + cs.length) : (atomicWrites (some k) d i bad cs).2 = true := by
-  induction cs generalizing d i bad with
-  | nil => simp at h2; omega
-  | cons c rest ih =>
-    unfold atomicWrites
-    by_cases hik : k = i
-    · subst hik; simp only [if_true]; exact atomicWrites_bad_stays _ _ _ _
-    · have hne : ¬ (some k = some i) := by simp [hik]
-      rw [if_neg hne]
-      exact ih _ (i + 1) bad (by omega) (by simp at h2; omega)
 
 /-- atomic_all_or_nothing, failure half: whichever single step fails (createTemp, any write, the
     file close, the rename), the put reports an error, the object at the final path is exactly
@@ -312,20 +203,6 @@ theorem atomic_failed_leaves_old (old : Option Content) (chunks : List Content) 
         · rw [hfin']
         · have : some k = some (chunks.length + 2) := by rw [h3]
           rw [if_pos this, hfin']
-
-theorem foldl_no_rename_final (steps : List AStep) (d : ADir) (hno : ∀ st ∈ steps, st ≠ AStep.rename) :
-    (steps.foldl aStep d).final = d.final := by
-  induction steps generalizing d with
-  | nil => rfl
-  | cons st rest ih =>
-    simp only [List.foldl]
-    rw [ih _ (fun x hx => hno x (List.mem_cons_of_mem _ hx))]
-    have := hno st (by simp)
-    cases st with
-    | createTemp => rfl
-    | write c => rfl
-    | closeFile => rfl
-    | rename => exact absurd rfl this
 
 /-- atomic_all_or_nothing, every-instant half: after ANY number of steps of an atomic put (the
     state a concurrent reader sees, and the state a crash leaves behind) the object at the final
@@ -367,8 +244,11 @@ theorem nonatomic_may_truncate :
     plainPrefix (some "OLD") ["AB", "CD"] 2 = some "AB" := by decide
 
 -- non-vacuity
+
 example : writeObj true [] ⟨[], []⟩ "a//b".toList ["x", "y"] = (false, ⟨[("a/b".toList, "xy")], []⟩) := by decide
+
 example : (writeObj true [⟨"a".toList, .write, 1⟩] ⟨[], []⟩ "a".toList ["x", "y"]).1 = true := by decide
+
 example : atomicRun (some "OLD") ["AB", "CD"] (some 2) = (true, { final := some "OLD", temp := none }) := by decide
 
 end BufProofs.C15
